@@ -6,7 +6,9 @@ import ShroudVerif.Gen.Guards
 
 Part 1 (this section): theorems about the lexical models of `Model/Lex.lean`,
 for all texts.  The checker that judges every pair of generated files is
-`commentOnlyDiff l a b = (tokensOf l a == tokensOf l b)`.
+`commentOnlyDiff l a b = (tokensOf l a == tokensOf l b)`, where `tokensOf` are language-level tokens
+(`refine`: identifiers, numbers, literals, punctuators by maximal munch; C lines joined except
+preprocessor directives; Fortran names in lower case).
 
 * `commentOnlyDiff_iff`, `token_change_detected`: the checker accepts exactly
   the pairs with equal token structure after comment removal (any change of a
@@ -105,6 +107,31 @@ theorem commentOnlyDiff_trans (l : Lang) (a b c : List Line) (h1 : commentOnlyDi
     (h2 : commentOnlyDiff l b c = true) : commentOnlyDiff l a c = true := by
   simp_all [commentOnlyDiff]
 
+/-- the language tokens are a function of the blank-delimited chunks -/
+theorem tokensOf_congr (l : Lang) (a b : List Char) (h : tokens (strip l a) = tokens (strip l b)) :
+    tokensOf l a = tokensOf l b := by
+  simp only [tokensOf, h]
+
+/-- **The refinement only regroups characters**: the language tokens of a chunk, concatenated,
+    are the chunk (C and Fortran before case folding), and none is empty.  Hence two
+    texts with equal tokens differ only in where blanks stand between tokens. -/
+theorem lex_tokens_concat (cfg : LexCfg) (chunk : Tok) :
+    (lexChunk cfg [] 0 chunk).flatten = chunk ∧ ∀ t ∈ lexChunk cfg [] 0 chunk, t ≠ [] :=
+  ⟨by simpa using lexChunk_flatten cfg chunk [] 0, lexChunk_nonempty cfg chunk [] 0⟩
+
+/-- pure re-layout is accepted: blanks around operators, C line breaks between tokens,
+    Fortran continuation breaks and letter case -/
+example : commentOnlyDiff .c ["x=a+b;".toList, "f(a,".toList, "  b)->c++;".toList]
+    ["x = a + b ;".toList, "f ( a , b ) -> c ++ ;".toList] = true := by decide +kernel
+example : commentOnlyDiff .f ["Call F(A, &".toList, "   b)".toList, "X=1.0E-3_C_DOUBLE*Y".toList]
+    ["call f(a, b)".toList, "x = 1.0e-3_c_double * y".toList] = true := by decide +kernel
+/-- but not a change of a token: `a++ + b` / `a + ++b`, a directive joined with the next line,
+    letter case inside a Fortran literal, a blank inside a number -/
+example : commentOnlyDiff .c ["a++ +b".toList] ["a+ ++b".toList] = false := by decide +kernel
+example : commentOnlyDiff .c ["#define X".toList, "y".toList] ["#define X y".toList] = false := by decide +kernel
+example : commentOnlyDiff .f ["x = 'Ab'".toList] ["x = 'ab'".toList] = false := by decide +kernel
+example : commentOnlyDiff .c ["x = 1e+5;".toList] ["x = 1e +5;".toList] = false := by decide +kernel
+
 /-! ### inserting and removing comment blocks -/
 
 /-- **Insertion of a comment block.**  `pre` are the lines before the insertion
@@ -116,6 +143,7 @@ theorem insert_comment_block (l : Lang) (pre blk post : List Line)
     (hpre : endsInCode l (joinLines pre) = true) (hblk : isCommentBlock l blk = true) :
     commentOnlyDiff l (pre ++ post) (pre ++ blk ++ post) = true := by
   rw [commentOnlyDiff_iff]
+  apply tokensOf_congr
   simp only [joinLines_append]
   cases l with
   | c =>
@@ -245,6 +273,7 @@ theorem trailing_comment (l : Lang) (pre post : List Line) (ln c : Line)
     (hs : endsInCode l (joinLines pre ++ ln) = true) (hc : plainComment c = true) :
     commentOnlyDiff l (pre ++ ln :: post) (pre ++ (ln ++ leader l ++ c) :: post) = true := by
   rw [commentOnlyDiff_iff]
+  apply tokensOf_congr
   simp only [joinLines_append, joinLines_cons]
   have hnl : c.all (· != '\n') = true := by
     simp only [plainComment, List.all_eq_true, Bool.and_eq_true] at hc
@@ -259,7 +288,7 @@ theorem trailing_comment (l : Lang) (pre post : List Line) (ln c : Line)
       simp [e, run_line_c c hc, run, stepC]
     have := trailing_generic stepC .code flushC (joinLines pre ++ ln) ('/' :: '/' :: c) (joinLines post)
       hs (by decide) hcmt
-    simp only [tokensOf, strip, stripC, leader]
+    simp only [strip, stripC, leader]
     simpa [List.append_assoc] using this.symm
   | f =>
     simp only [endsInCode, beq_iff_eq] at hs
@@ -269,7 +298,7 @@ theorem trailing_comment (l : Lang) (pre post : List Line) (ln c : Line)
       simp [e, run_comment_f c hnl, run, stepF]
     have := trailing_generic stepF .code flushF (joinLines pre ++ ln) ('!' :: c) (joinLines post)
       hs (by decide) hcmt
-    simp only [tokensOf, strip, stripF, leader]
+    simp only [strip, stripF, leader]
     simpa [List.append_assoc] using this.symm
 
 /-! ### any sequence of comment edits -/
@@ -399,6 +428,13 @@ theorem comment_lists_clean :
     same statement list also appends code to it unconditionally: a comment cannot make a file appear. -/
 theorem no_guarded_append_decides_file :
     fileDecisionAppends.filter (fun r => r.2.2 == 9) = [] := by decide +kernel
+
+/-- `config.write_version` (the text chosen by --write-version / --nowrite-version) is read only
+    by `util.write_output_file`, where it is part of the second header line, a comment line by
+    `Shroud.Lines.wof_header_then_body` (Props/C13.lean), and by `main.dump_jsonfile` (the JSON log):
+    both reads are found and there is no other. -/
+theorem write_version_read_only_for_header :
+    writeVersionReads.filter (fun r => r.2.2 == 9) = [] ∧ writeVersionReads.length = 2 := by decide +kernel
 
 /-- non-vacuity: the scan found guarded statements for each of the six options -/
 theorem guards_found :
